@@ -10,6 +10,7 @@ LEVEL = "proof"
 COQ_FILES = ["Tie/C04_defs.v", "Tie/C04_tie.v", "Props/C04_props.v"]
 PROPS_FILES = ["C04_props.v"]
 TRUSTED_BASE = [
+    "vlib/symex.py (symbolic execution of the translated Python subset on the ast: the translator reads value / outcome trees, so local names, intermediates, helpers and the form of branches do not matter; its assumptions - pure expressions, opaque calls, no aliasing writes, try handlers not modelled - are listed in DESIGN.md 12.7; fail-closed)",
     "py2gallina unit 'mask shapes' (BaseMaskFunc.__call__ rank guards, _reshape_and_add_coil_axis shape list, control skeleton of the slope bisection in VariableDensityPoissonMaskFunc.poisson, loop condition of the Cython rejection kernels read from the .pyx text)",
     "the sampling patterns themselves (numpy RandomState draws, libc rand inside the Cython kernels, scipy rotate, float spiral arithmetic) are oracles: only shape, dtype, row-constancy and return-or-documented-error are decided, by oracles on the implementation",
     "floats in the bisection are modelled by their ordinal among representable values with the contract lo <= midpoint(lo, hi) <= hi",
